@@ -84,6 +84,12 @@ def _allowed(p, ea, r, e, root):
         return False, "the LASFile attribute itself is rebound or a non-section attribute is written"
     # (a) WRAP replacement under wrap is True / False
     if e.kind == "replace" and sec == "Version" and rest == (("elem", "WRAP"),):
+        rhs = getattr(e.node, "value", None)
+        if rhs is not None:
+            shared = [x for x in ea.paths_of(rhs, e.fi) if x and x[0] and x[0][0] == "global"]
+            if shared and not (isinstance(rhs, ast.Call) and ast.unparse(rhs.func).split(".")[-1] in ("deepcopy", "copy")):
+                return False, ("the WRAP item installed in the LASFile is the module-level object %s itself (no copy): every LASFile written "
+                               "with an explicit wrap= then shares one item, and editing it in one changes the others" % fmt_path(shared[0]))
         ok = _guarded_by_wrap_constant(p, e)
         return ok, "WRAP item replaced only under `wrap is True/False`" if ok else "WRAP replacement is not confined to wrap is True/False"
     if e.kind == "store":
@@ -111,10 +117,14 @@ def _guarded_by_wrap_constant(p, e):
             t = cfg.nodes[tn].ast
             if cfg.nodes[tn].kind != "test":
                 continue
-            if (isinstance(t, ast.Compare) and len(t.ops) == 1 and isinstance(t.ops[0], (ast.Is, ast.Eq))
-                    and isinstance(t.left, ast.Name) and t.left.id == "wrap"
-                    and isinstance(t.comparators[0], ast.Constant) and isinstance(t.comparators[0].value, bool)
-                    and lab.startswith("true")):
+            def is_wrap_const(c_):
+                return (isinstance(c_, ast.Compare) and len(c_.ops) == 1 and isinstance(c_.ops[0], (ast.Is, ast.Eq))
+                        and isinstance(c_.left, ast.Name) and c_.left.id == "wrap"
+                        and isinstance(c_.comparators[0], ast.Constant) and isinstance(c_.comparators[0].value, bool))
+            if is_wrap_const(t) and lab.startswith("true"):
+                found = True
+            # `wrap is True or wrap is False` (the two cases merged into one table lookup)
+            if isinstance(t, ast.BoolOp) and isinstance(t.op, ast.Or) and all(is_wrap_const(v) for v in t.values) and lab.startswith("true"):
                 found = True
         if not found:
             return False
@@ -441,6 +451,23 @@ def rule_refresh(ctx):
                     stores["curve0"] = ast.unparse(sub.value)
     site = "las.LASFile.update_units_from_index_curve#stores"
     vals = set(stores.values())
+    # "the same value": the common variable is not re-bound between the first and the last of the four stores
+    if len(vals) == 1 and list(vals)[0].isidentifier():
+        from sa.astutil import ordn
+        vname = list(vals)[0]
+        st_nodes = [sub for sub in walk_shallow(af.node) if isinstance(sub, ast.Assign) and len(sub.targets) == 1 and (
+            _well_item_store(sub.targets[0], "unit") or (isinstance(sub.targets[0], ast.Attribute) and sub.targets[0].attr == "unit"))
+            and ast.unparse(sub.value) == vname]
+        if st_nodes:
+            lo, hi = min(ordn(x) for x in st_nodes), max(ordn(x) for x in st_nodes)
+            rebound = [a_ for a_ in walk_shallow(af.node) if isinstance(a_, ast.Assign) and any(isinstance(t, ast.Name) and t.id == vname for t in a_.targets)
+                       and lo < ordn(a_) < hi]
+            if rebound:
+                ctx.bad("WR.REFRESH", site, af, rebound[0], "`%s` is re-bound (`%s`) between the unit stores: STRT, STOP, STEP and the index curve "
+                        "do not necessarily receive one common unit in a single call, so the units keep changing over several write cycles"
+                        % (vname, unparse(rebound[0])))
+                ctx.floor("WR.REFRESH", 1)
+                return
     if set(stores) >= {"STRT", "STOP", "STEP", "curve0"} and len(vals) == 1:
         ctx.ok("WR.REFRESH", site, af, af.node, "STRT/STOP/STEP and first-curve units are all set to the same value `%s`" % vals.pop())
     else:
